@@ -100,6 +100,7 @@ impl Scenario for GwScenario {
                     "active": ch_active, "pattern": if !shard_kind && r.chance(1, 3) { "ring" } else { "oneway" },
                     "yield_seed": r.next_u64() >> 12, "perm_seed": r.next_u64() >> 12,
                     "check_close": r.chance(1, 2),
+                    "send_style": if r.chance(1, 2) { "tasks" } else { "seqjoin" },
                 });
                 let ks: Vec<_> = if ps(&c, "pattern") == "ring" {
                     (0..3).map(|s| ("mpc".to_string(), 0, s, (s + 1) % 3, g, shard)).collect()
@@ -467,7 +468,42 @@ where
 
     let (src, dst) = pairs[0];
     // one-way: sender task
-    {
+    let send_tasks = c.get("send_style").and_then(Value::as_str) == Some("tasks");
+    if send_tasks {
+        // every record is sent from its own task (as the multi-threaded seq_join does); blocks of `active`
+        // records are outstanding at a time
+        let world = StdArc::clone(world);
+        let log = StdArc::clone(log);
+        let g = g.clone();
+        handles.push(shuttle::future::spawn(async move {
+            let tx = StdArc::new(world.gw(src, shard).get_mpc_sender::<Raw<N>>(&ChannelId::new(Role::all()[dst], g), tr, ch_active.try_into().unwrap()));
+            let mut base = 0usize;
+            while base < total {
+                let end = (base + ch_active).min(total);
+                let mut hs = Vec::new();
+                for i in base..end {
+                    let (tx, log) = (StdArc::clone(&tx), StdArc::clone(&log));
+                    hs.push(shuttle::future::spawn(async move {
+                        for _ in 0..yields_for(yield_seed, i) {
+                            shuttle::future::yield_now().await;
+                        }
+                        if let Err(e) = tx.send(RecordId::from(i), Raw::<N>::tagged(tag, i as u64)).await {
+                            log.lock().unwrap().send_err.push((k, i, e.to_string()));
+                        }
+                    }));
+                }
+                for h in hs {
+                    h.await.unwrap();
+                }
+                base = end;
+            }
+            if check_close && !indeterminate {
+                let r = tx.send(RecordId::from(total), Raw::<N>::tagged(tag, total as u64)).await;
+                log.lock().unwrap().past_end_send.push((k, r.map_err(|e| e.to_string())));
+            }
+            log.lock().unwrap().tasks_done += 1;
+        }));
+    } else {
         let world = StdArc::clone(world);
         let log = StdArc::clone(log);
         let g = g.clone();
